@@ -35,6 +35,8 @@ ANCHORS = ["SqlContext.copy", "_SetOperation.get_sql", "Parameter.get_sql", "Arr
            "MSSQLQueryBuilder.get_sql", "OracleQueryBuilder.get_sql", "MySQLQueryBuilder.get_sql", "SQLLiteQueryBuilder.get_sql",
            "PostgreSQLQueryBuilder.get_sql"]
 WORKERS = {"quick": 16, "thorough": 16}
+# cases the check sets aside instead of judging, as a share of all cases (more than that makes a run inconclusive)
+CEILING_RATIOS = {"unbuildable": 0.002}
 
 PROBES = ["identifier", "placeholder", "boolean", "boolean-criterion", "array", "interval", "json-value", "set-operand", "groupby-alias", "row-limit",
           "string-backslash"]
